@@ -219,14 +219,19 @@ impl<'a> SimpleGlyph<'a> {
             return Err(ReadError::InvalidArrayLen);
         }
         let mut cursor = FontData::new(self.glyph_data()).cursor();
-        // We'll need at most n_points flags, but fewer if there are repeats
-        let flags_data = cursor.read_array::<u8>(n_points.min(cursor.remaining_bytes()))?;
+        // We usually need at most n_points flag bytes (fewer if there are
+        // repeats) but a repeat count of 0 spends two bytes on one point, so
+        // look at everything that is left; the loop stops at n_points
+        let flags_data = cursor.read_array::<u8>(cursor.remaining_bytes())?;
         let mut flags_iter = flags_data.iter().copied();
         // Keep track of the actual number of flag bytes read so that we can
         // create a new cursor for reading coordinates
         let mut read_flags_bytes = 0;
         let mut i = 0;
-        while let Some(flag_bits) = flags_iter.next() {
+        while i < n_points {
+            // The flags ran out: don't leave the caller's remaining flags
+            // (and with them the coordinates) undefined
+            let flag_bits = flags_iter.next().ok_or(ReadError::OutOfBounds)?;
             read_flags_bytes += 1;
             if SimpleGlyphFlags::from_bits_truncate(flag_bits)
                 .contains(SimpleGlyphFlags::REPEAT_FLAG)
@@ -241,9 +246,6 @@ impl<'a> SimpleGlyph<'a> {
             } else {
                 flags[i].0 = flag_bits;
                 i += 1;
-            }
-            if i == n_points {
-                break;
             }
         }
         let mut cursor = FontData::new(self.glyph_data()).cursor();
